@@ -131,6 +131,54 @@ def check_ageing_step(rep, prog, rid):
         rep.anchor_missing(rid, str(e))
 
 
+def check_bmca_step_source(rep, prog, rid):
+    """the step PtpInstance::bmca hands down is exactly 2^log_bmca_interval seconds (fractional for sub-second intervals)"""
+    try:
+        pb = [b for b in prog.find(name="bmca", self_name="PtpInstance", crate="statime-lib") if not b.is_closure]
+        if len(pb) != 1:
+            raise AnchorMissing("PtpInstance::bmca not found")
+
+        def src(txt):
+            return txt.startswith("from_seconds(powi(2.0, ") and "log_bmca_interval" in txt and "from_secs(" not in txt
+        check_chain(rep, prog, rid, "2^log_bmca_interval seconds", pb[0], src, [("bmca", "PtpInstanceState")],
+                    consequence=": for sub-second announce intervals the records would age by a truncated step (0), so a "
+                                "master that disappeared is never dropped and the port flaps between master and slave")
+    except AnchorMissing as e:
+        rep.anchor_missing(rid, str(e))
+
+
+def check_record_removal(rep, prog, rid):
+    """a foreign master whose last Announce aged out is REMOVED from the list (the list has 8 slots: records that are
+    never removed fill it, after which a new master is ignored for ever)"""
+    from sa import conds as cnd
+    try:
+        fl = prog.one(name="step_age", self_name="ForeignMasterList", crate="statime-lib")
+        c = cnd.conds(prog, fl)
+        ok = False
+        n = 0
+        for bi, t, cal in mir.iter_calls(fl, name="remove"):
+            if "foreign_masters" not in df.canon(c.prov.op_tree(t["args"][0]), fl):
+                continue
+            n += 1
+            for l in cnd.expand_literals(prog, fl, set(c.must_literals(bi))):
+                if l[0] == "bool" and l[2] is True and df.strip(l[1])[0] == "call" and df.strip(l[1])[2] == "step_age":
+                    ok = True
+        for bi, t, cal in mir.iter_calls(fl, name="retain"):
+            n += 1
+            ok = ok or "step_age" in df.canon(c.prov.call_tree(t), fl) or any(
+                any(c2["name"] == "step_age" for _, _, c2 in mir.iter_calls(cb)) for cb in prog.closures_of(fl))
+        if ok:
+            rep.ok(rid, fl.key, "emptied records are removed", where=fl.loc())
+        else:
+            rep.violation(rid, fl.key, "emptied records are removed",
+                          "ForeignMasterList::step_age does not remove a record whose ForeignMaster::step_age reports that no "
+                          "Announce is left (removals found: %d): every master ever heard keeps one of the %s slots, and once "
+                          "they are used up a new master's Announces are ignored - the port can never become its slave" % (
+                              n, "MAX_FOREIGN_MASTERS"), where=fl.loc())
+    except AnchorMissing as e:
+        rep.anchor_missing(rid, str(e))
+
+
 def check_window_interval(rep, prog, rid):
     """the foreign-master window is counted in the port's ANNOUNCE interval"""
     try:
